@@ -15,6 +15,7 @@ THEOREMS = [
     "MoreExec.CoS.C10_race_linearises",
     "MoreExec.CoS.C10_no_accept_after_flip",
     "MoreExec.Shutdown.C11_source_facts",
+    "MoreExec.CoS.C10_source_facts",
 ]
 KERNELS = ["K10"]
 BUDGET = {"quick": 150, "thorough": 1500}
